@@ -255,8 +255,8 @@ def r02_3(prog, out):
                 # counter nothing reads back) is not the subscription's delivery state.
                 actor_ty = A.ty("SubscriptionActor")
                 from anchors import FIELDS
-                if any(c[0] == actor_ty and c[1] not in FIELDS["SubscriptionActor"] for c in e.cells) and e.kind == "write":
-                    continue
+                if any(c[0] == actor_ty and c[1] not in FIELDS["SubscriptionActor"] for c in e.cells):
+                    continue        # bookkeeping next to the delivery state (a counter, a per-message attempt count pruned on ack)
                 bad.append(e)
         key = "ack-handler:%s" % prog.short(tid)
         if bad:
@@ -433,31 +433,51 @@ def r02_5(prog, out):
     actor, vname = ack_variant(prog)
     cons = prog.constructions(actor.request, vname)
     sinks = sorted({bid for bid, _, _, _ in cons})
-    if len(sinks) != 1:
-        out.violation("ack-request-constructed", prog.loc(sinks[0]) if sinks else "", "the ack request is built in %d places: %s" % (len(sinks), [prog.short(s) for s in sinks]))
-        return
-    out.holds("ack-request-constructed", prog.loc(sinks[0]), "only %s builds the ack request" % prog.short(sinks[0]))
-    sink_root = prog.facts.body(sinks[0]).root or sinks[0]
+    # the request is built by methods of the subscription handle only (one, or siblings such as `.._with_outcome`): every one
+    # of them is a sink whose callers are judged below
+    handle = A.ty("Subscription")
+
+    def in_handle(bid):
+        return prog.facts.body(prog.facts.body(bid).root or bid).impl_self == handle
+
+    if not sinks:
+        raise CheckBroken("the ack request is never built")
+    out.holds("ack-request-constructed", prog.loc(sinks[0]), "the ack request is built by %s" % ", ".join(prog.short(s) for s in sinks))
+    sink_roots = {prog.facts.body(s).root or s for s in sinks if in_handle(s)}
     sl = Slicer(prog)
-    n = 0
+    # entry points: calls of the handle's sink method(s) from outside them, and places outside the handle where the request is
+    # built directly (a sibling method written -- or spliced -- into a handler)
+    entries = []
     for bid, b in prog.facts.bodies.items():
         bi = prog.info(bid)
-        for bb, t in bi.calls(lambda c: prog.qual(b, c.target) == sink_root):
-            n += 1
-            s = sl.of(bid, t.args[1])
-            if "crate::api::parser::parse_ack_id" not in s.calls and any(r[0] in ("param", "upvar") for r in s.roots):
-                s = sl.of_resolved(bid, t.args[1])      # the ids arrive as a field of a value built by the caller
-            key = "ack-caller:%s" % prog.short(bid)
-            from common import skipped_only_when_empty
-            sk = skipped_only_when_empty(prog, bi, bb, t.args[1])
-            if sk is not None:
-                out.violation(key + ":applied", bi.loc(sk[0]), "acknowledgements: " + sk[1])
-            if "crate::api::parser::parse_ack_id" in s.calls:
-                out.holds(key, bi.loc(bb), "ids come from the ack-id parser")
-            elif any(f == A.cell("PulledMessage", "ack_id") or f[1] == "ack_id" for f in s.fields) or A.ty("PulledMessage") + "::ack_id" in s.calls:
-                out.holds(key, bi.loc(bb), "id of a delivery the server handed out itself (push dispatch)")
-            else:
-                out.violation(key, bi.loc(bb), "acknowledged ids do not come from the ack-id parser (%s)" % sorted(c.split('::')[-1] for c in s.calls)[:5])
+        if (b.root or bid) in sink_roots:
+            continue          # one sink delegating to another
+        for bb, t in bi.calls(lambda c: prog.qual(b, c.target) in sink_roots):
+            entries.append((bid, bb, t.args[1]))
+    for (bid, bb, i, rv) in cons:
+        if not in_handle(bid):
+            tys = [prog.info(bid).body.operand_ty(op) or "" for op in rv.ops]
+            ids = [op for op, ty in zip(rv.ops, tys) if ty.startswith("std::vec::Vec<%s" % A.ty("AckId"))]
+            if ids:
+                entries.append((bid, bb, ids[0]))
+    n = 0
+    for bid, bb, ids in entries:
+        bi = prog.info(bid)
+        n += 1
+        s = sl.of(bid, ids)
+        if "crate::api::parser::parse_ack_id" not in s.calls and any(r[0] in ("param", "upvar") for r in s.roots):
+            s = sl.of_resolved(bid, ids)      # the ids arrive as a field of a value built by the caller
+        key = "ack-caller:%s" % prog.short(bid)
+        from common import skipped_only_when_empty
+        sk = skipped_only_when_empty(prog, bi, bb, ids)
+        if sk is not None:
+            out.violation(key + ":applied", bi.loc(sk[0]), "acknowledgements: " + sk[1])
+        if "crate::api::parser::parse_ack_id" in s.calls:
+            out.holds(key, bi.loc(bb), "ids come from the ack-id parser")
+        elif any(f == A.cell("PulledMessage", "ack_id") or f[1] == "ack_id" for f in s.fields) or A.ty("PulledMessage") + "::ack_id" in s.calls:
+            out.holds(key, bi.loc(bb), "id of a delivery the server handed out itself (push dispatch)")
+        else:
+            out.violation(key, bi.loc(bb), "acknowledged ids do not come from the ack-id parser (%s)" % sorted(c.split('::')[-1] for c in s.calls)[:5])
     if n < 3:
         raise CheckBroken("expected 3 callers of the ack sink (unary, streaming, push), found %d" % n)
 
@@ -561,3 +581,52 @@ def _only_empty_skips(prog, bi, call_bb, operand, also_ok):
             if tr is not None:
                 empty |= bi.cfg.edge_dominated(sw, tr)
     return bool(empty) and bi.cfg.escapes(0, {call_bb} | empty | also_ok | error_blocks(bi), after=False) is None
+
+
+@rule("C02", "R02.7", "a request that is answered Ok has had its ack ids parsed: no early success in front of the parse", floor=2)
+def r02_7(prog, out):
+    """as R05.7, for the ack ids of Acknowledge and of a StreamingPull control message: in every body that hands the request's
+    ids to the ack-id parser (directly or through an iterator closure), each normal path to the return passes that point"""
+    from props.c05 import _early_success
+    pa = "crate::api::parser::parse_ack_id"
+    if prog.facts.body(pa) is None:
+        raise CheckBroken("ack-id parser not found")
+    n = 0
+    # request-facing bodies only: the handlers, their nested closures / awaited local coroutines (a batch parser that calls
+    # the ack-id parser per element is judged through the handler that calls it: R05.7)
+    facing = set()
+    for h in prog.handlers:
+        if h.root is not None:
+            facing |= {c for c in prog.cone(h.root, follow=("closure", "poll")) if not c.startswith("crate::api::parser::")}
+    for b in prog.facts.lib_bodies():
+        if b.id == pa or (b.kind == "Closure" and not b.coroutine) or b.id not in facing:
+            continue
+        bi = prog.info(b.id)
+        sites = [bb for bb, t in bi.calls(lambda c: prog.qual(bi.body, c.target) == pa)]
+        # closures built in this body that call the parser (wherever the closure was written: a spliced helper's closure keeps
+        # its own id): the block that builds the closure for the adapter
+        for blk in bi.body.blocks:
+            if blk.cleanup:
+                continue
+            for st in blk.stmts:
+                if st.k == "assign" and st.rv.k == "agg" and st.rv.j.get("ak") == "closure":
+                    cid = prog.qual(bi.body, st.rv.j["def"])
+                    ci = prog.info(cid)
+                    if ci is not None and any(prog.qual(ci.body, t.callee.target) == pa for _bb, t in ci.calls(lambda c: c.local or c.res_local)):
+                        sites.append(blk.idx)
+        # `map(parse_ack_id)` -- the parser passed as a fn item
+        for bb, t in bi.calls():
+            if any(a.place is None and (a.const.get("fn") or "") == pa for a in t.args):
+                sites.append(bb)
+        if not sites:
+            continue
+        n += 1
+        key = "parsed-on-every-path:%s" % prog.short(b.id)
+        esc = _early_success(prog, bi, sites)
+        if esc is not None:
+            out.violation(key, bi.loc(esc[-1]), "a path answers without an error before the ack ids of the message are parsed: the acknowledgements are dropped silently",
+                          ["path: " + " -> ".join(str(x) for x in esc[:12])])
+        else:
+            out.holds(key, bi.loc(sites[0]), "every normal path parses the ack ids")
+    if n < 2:
+        raise CheckBroken("expected the unary and the streaming user of the ack-id parser, found %d" % n)
